@@ -59,6 +59,13 @@ def compute(spec, kw):
     coords = {d: INTERNAL_DIMS[d][:n] for d, n in spec["sizes"].items()
               if any(d in dims for _, dims in spec["vars"])}
     if ret == "dataset":
+        if spec.get("aux_coords"):
+            coords = dict(coords)
+            coords["units"] = "m"                      # scalar coordinate
+            for d in list(coords):
+                if d in spec["sizes"]:
+                    coords[d + "_label"] = ((d,), ["lo", "hi", "top", "max"][
+                        :spec["sizes"][d]])            # auxiliary coordinate
         return xr.Dataset({name: (tuple(dims), o) for (name, dims), o in
                            zip(spec["vars"], outs)}, coords=coords)
     if ret == "dataarray":
